@@ -323,20 +323,30 @@ def _r_unilower(case, m, s):
         and "</" in case[3]
 
 
-@rule("nul-in-comment-start-dash")
-def _r_nul_csd(case, m, s):
-    return re.search(r"<!---\x00", case[3]) is not None and case[0] == "dataState"
-
-
-@rule("nul-in-comment-start")
-def _r_nul_cs(case, m, s):
-    return re.search(r"<!--\x00", case[3]) is not None and case[0] == "dataState"
-
-
-@rule("nul-in-cdata-section")
-def _r_nul_cdata(case, m, s):
-    return case[2] and "<![CDATA[" in case[3] and "\x00" in _chars(s) and \
-        _chars(m) == _chars(s).replace("\x00", "\ufffd")
+def cdata_nul_candidates(text):
+    """inputs in which the NULs inside CDATA sections are already U+FFFD: the recorded defect `nul-in-cdata-section`
+    (html5lib replaces them in the tokenizer, the standard leaves that to the tree builder) explains a difference
+    exactly when the real tokenization of `text` equals the WHATWG tokenization of one of these.  `<![CDATA[` may also
+    occur where it does not open a section (comment, attribute value), hence every subset of the occurrences."""
+    spans, pos = [], 0
+    while True:
+        k = text.find("<![CDATA[", pos)
+        if k < 0:
+            break
+        e = text.find("]]>", k)
+        e = len(text) if e < 0 else e
+        if "\x00" in text[k:e]:
+            spans.append((k, e))
+        pos = k + 9
+    spans = spans[:4]
+    out = []
+    for mask in range(1, 1 << len(spans)):
+        t = text
+        for i, (k, e) in enumerate(spans):
+            if mask >> i & 1:
+                t = t[:k] + t[k:e].replace("\x00", "\ufffd") + t[e:]
+        out.append(t)
+    return out
 
 
 # ----------------------------------------------------------------------------- extra generators
